@@ -179,7 +179,7 @@ func call(car string, v reflect.Value, rules string) func() error {
 			_ = valid.StructForFn(reflect.Zero(reflect.PtrTo(st)).Interface(), valid.RM{"F": "required|leak3,in=(zz)|leak4"})
 			return valid.Struct(p.Interface())
 		}
-	case "struct-tag-after-other-tag", "struct-tag-after-call-local-functions":
+	case "struct-tag-after-other-tag", "struct-tag-after-call-local-functions", "struct-tag-field-70", "struct-rm-after-plain-call", "map-25-entries":
 		return func() error {
 			s, isNil := carrier.Validate(carrier.Kind(car), v, rules)
 			if isNil {
@@ -296,14 +296,14 @@ func run(c *runner.Ctx) {
 			if !c.Take() {
 				continue
 			}
-			cars := []string{"struct-rm", "struct-tagged+rm", "struct-rm-set-per-rule"}
+			cars := []string{"struct-rm", "struct-tagged+rm", "struct-rm-set-per-rule", "struct-rm-after-plain-call"}
 			switch tv.v.Kind() { // Map documents scalar values only (int, float, bool, string)
 			case reflect.Slice, reflect.Array, reflect.Map, reflect.Struct, reflect.Ptr:
 			default:
-				cars = append(cars, "map", "map-iface")
+				cars = append(cars, "map", "map-iface", "map-25-entries")
 			}
 			if carrier.TagOK(rf.rules) {
-				cars = append(cars, "struct-tag", "struct-tag-after-override", "struct-tag-after-rejected-call", "struct-tag-after-other-tag", "struct-tag-after-call-local-functions")
+				cars = append(cars, "struct-tag", "struct-tag-after-override", "struct-tag-after-rejected-call", "struct-tag-after-other-tag", "struct-tag-after-call-local-functions", "struct-tag-field-70")
 			}
 			if tv.varOK {
 				cars = append(cars, "var")
